@@ -326,11 +326,11 @@ def _gen_cases(rng: Rng, tier):
                 for L in range(0, 4):
                     for _ in range(12):
                         yield dict(kind="get", obj=o, ix=["a", [rng.randint(-n - 1, n) for _ in range(L)]])
-    for _ in range(1500 if big else 320):
+    for _ in range(4000 if big else 320):
         o = rand_obj(rng)
         yield dict(kind="get", obj=o, ix=rand_index(rng, obj_nobs(o)))
     # chained selection
-    for _ in range(600 if big else 120):
+    for _ in range(1500 if big else 120):
         o = rand_obj(rng, rng.randint(2, 6))
         n = obj_nobs(o)
         ix1 = rng.choice([["s", 1, None, None], ["s", None, None, -1], ["a", [n - 1, 0]], ["s", None, None, 2], ["s", 1, n, None]])
@@ -344,10 +344,10 @@ def _gen_cases(rng: Rng, tier):
         o = rand_obj(rng, rng.randint(1, 6), rng.choice(["D", "I", "I", "B"]))
         yield dict(kind="iter", comp=o[1])
     # concatenation in every grouping
-    for _ in range(500 if big else 80):
+    for _ in range(1500 if big else 80):
         yield from gen_cat(rng)
     # first-class
-    for k in range(160 if big else 28):
+    for k in range(420 if big else 28):
         yield gen_fc(rng, k)
 
 
